@@ -52,20 +52,21 @@ impl Op {
             _ => return None,
         })
     }
-    /// pages marked (in order) / reset by this op, page size 1
-    fn marks(&self) -> Vec<usize> {
+    /// pages marked (in order) / reset by this op; ranges are in bytes, `page` bytes per page
+    fn marks(&self, page: usize) -> Vec<usize> {
+        let span = |s: usize, l: usize| if l == 0 { vec![] } else { (s / page..=(s + l - 1) / page).collect() };
         match self {
             Op::SetBit(p) => vec![*p],
-            Op::SetRange(s, l) => (*s..*s + *l).collect(),
-            Op::SliceMark(b, o, l) => (*b + *o..*b + *o + *l).collect(),
-            Op::RegionWrite(o, l) => (*o..*o + *l).collect(),
+            Op::SetRange(s, l) => span(*s, *l),
+            Op::SliceMark(b, o, l) => span(*b + *o, *l),
+            Op::RegionWrite(o, l) => span(*o, *l),
             _ => vec![],
         }
     }
-    fn resets(&self) -> Vec<usize> {
+    fn resets(&self, page: usize) -> Vec<usize> {
         match self {
             Op::ResetBit(p) => vec![*p],
-            Op::ResetRange(s, l) => (*s..*s + *l).collect(),
+            Op::ResetRange(s, l) if *l > 0 => (*s / page..=(*s + *l - 1) / page).collect(),
             _ => vec![],
         }
     }
@@ -79,12 +80,16 @@ pub struct Harness {
     pub bound: Option<u32>,
     /// pages marked (sequentially) before the threads start
     pub init: Vec<usize>,
+    /// bytes per page; the tracked range is `pages * page - slack` bytes (a partial last page
+    /// when slack > 0)
+    pub page: usize,
+    pub slack: usize,
 }
 
 impl Harness {
     fn to_json(&self) -> Value {
         json!({
-            "name": self.name, "pages": self.pages, "page_size": 1, "premarked": self.init,
+            "name": self.name, "pages": self.pages, "page_size": self.page, "slack": self.slack, "premarked": self.init,
             "threads": self.threads.iter().map(|t| t.iter().map(|o| o.to_json()).collect::<Vec<_>>()).collect::<Vec<_>>(),
         })
     }
@@ -101,7 +106,12 @@ impl Harness {
             threads,
             bound: None,
             init: v.get("premarked").and_then(|a| a.as_array()).map(|a| a.iter().filter_map(|x| x.as_u64().map(|x| x as usize)).collect()).unwrap_or_default(),
+            page: v.get("page_size").and_then(|x| x.as_u64()).unwrap_or(1).max(1) as usize,
+            slack: v.get("slack").and_then(|x| x.as_u64()).unwrap_or(0) as usize,
         })
+    }
+    fn byte_size(&self) -> usize {
+        self.pages * self.page - self.slack
     }
     fn needs_region(&self) -> bool {
         self.threads
@@ -166,7 +176,7 @@ struct ExecOutcome {
 }
 
 fn execute(h: &Harness, ex: &mut Explorer) -> ExecOutcome {
-    let one = NonZeroUsize::new(1).unwrap();
+    let one = NonZeroUsize::new(h.page).unwrap();
     let subject = if h.needs_region() {
         let region = MmapRegionBuilder::new_with_bitmap(h.pages, AtomicBitmap::new(h.pages, one))
             .with_mmap_prot(libc::PROT_READ | libc::PROT_WRITE)
@@ -175,7 +185,7 @@ fn execute(h: &Harness, ex: &mut Explorer) -> ExecOutcome {
             .expect("mmap");
         Subject::Region(GuestRegionMmap::new(region, GuestAddress(0x1000)).unwrap())
     } else {
-        Subject::Bm(AtomicBitmap::new(h.pages, one))
+        Subject::Bm(AtomicBitmap::new(h.byte_size(), one))
     };
     for p in &h.init {
         subject.bm().set_bit(*p);
@@ -260,12 +270,12 @@ fn execute(h: &Harness, ex: &mut Explorer) -> ExecOutcome {
     }
     for ops in &h.threads {
         for op in ops {
-            for p in op.marks() {
+            for p in op.marks(h.page) {
                 if p < h.pages {
                     *marked.entry(p).or_insert(0) += 1;
                 }
             }
-            for p in op.resets() {
+            for p in op.resets(h.page) {
                 reset.insert(p);
             }
         }
@@ -288,7 +298,7 @@ fn execute(h: &Harness, ex: &mut Explorer) -> ExecOutcome {
                 let words = c.get_and_reset();
                 let s = bits(&words);
                 outcome.push(format!("c{}.{}={:?}", t, i, s));
-                if c.len() != h.pages || c.byte_size() != h.pages {
+                if c.len() != h.pages || c.byte_size() != h.byte_size() {
                     oc.violation = Some((
                         "clone-geometry".into(),
                         format!("clone len {} byte_size {}", c.len(), c.byte_size()),
@@ -301,7 +311,7 @@ fn execute(h: &Harness, ex: &mut Explorer) -> ExecOutcome {
                     .threads
                     .iter()
                     .flatten()
-                    .all(|o| o.resets().is_empty() && *o != Op::Harvest);
+                    .all(|o| o.resets(h.page).is_empty() && *o != Op::Harvest);
                 for p in &s {
                     if !marked.contains_key(p) {
                         oc.violation = Some((
@@ -315,7 +325,7 @@ fn execute(h: &Harness, ex: &mut Explorer) -> ExecOutcome {
                         for ops in &h.threads {
                             let seq: Vec<usize> = ops
                                 .iter()
-                                .flat_map(|o| o.marks())
+                                .flat_map(|o| o.marks(h.page))
                                 .filter(|p| p / 64 == w && *p < h.pages)
                                 .collect();
                             let mut gap = false;
@@ -406,7 +416,7 @@ fn execute(h: &Harness, ex: &mut Explorer) -> ExecOutcome {
                     Some(b) => b,
                     None => continue,
                 };
-                for p in op.marks() {
+                for p in op.marks(h.page) {
                     if p >= h.pages || final_set.contains(&p) {
                         continue;
                     }
@@ -417,7 +427,7 @@ fn execute(h: &Harness, ex: &mut Explorer) -> ExecOutcome {
                             if end2 < begin {
                                 continue;
                             }
-                            if op2.resets().contains(&p) {
+                            if op2.resets(h.page).contains(&p) {
                                 accounted = true;
                             }
                             if *op2 == Op::Harvest && harvest_sets.get(&(t2, i2)).map_or(false, |s| s.contains(&p)) {
@@ -450,6 +460,8 @@ fn harnesses(tier: Tier) -> Vec<Harness> {
         threads,
         bound,
         init: vec![],
+        page: 1,
+        slack: 0,
     };
     let hi = |name: &str, init: Vec<usize>, threads: Vec<Vec<Op>>, bound: Option<u32>| Harness {
         name: name.to_string(),
@@ -457,6 +469,18 @@ fn harnesses(tier: Tier) -> Vec<Harness> {
         threads,
         bound,
         init,
+        page: 1,
+        slack: 0,
+    };
+    // page sizes above one byte, the tracked range ending in a partial page
+    let hg = |name: &str, pages: usize, page: usize, slack: usize, init: Vec<usize>, threads: Vec<Vec<Op>>| Harness {
+        name: name.to_string(),
+        pages,
+        threads,
+        bound: None,
+        init,
+        page,
+        slack,
     };
     let mut v = vec![
         h("two-markers-same-word", vec![vec![SetBit(3)], vec![SetBit(5)]], None),
@@ -510,6 +534,14 @@ fn harnesses(tier: Tier) -> Vec<Harness> {
     v.push(h("remark-vs-reset-bit", vec![vec![SetRange(70, 1), SetRange(70, 1)], vec![ResetBit(70)]], None));
     v.push(h("guest-rewrite-vs-harvest", vec![vec![RegionWrite(70, 1), RegionWrite(70, 1)], vec![Harvest]], None));
     v.push(h("remark-vs-harvest-twice", vec![vec![SetRange(70, 1), SetRange(70, 1), SetRange(70, 1)], vec![Harvest, Harvest]], Some(4)));
+    // the last page is a partial one (and the page count is not a multiple of 64): its mark is
+    // harvested like any other
+    v.push(hg("partial-last-page-mark-vs-harvest", 70, 128, 111, vec![], vec![vec![SetRange(69 * 128 + 3, 5)], vec![Harvest]]));
+    v.push(hg("partial-last-page-set-bit-vs-harvest", 70, 128, 111, vec![0], vec![vec![SetBit(69), SetBit(68)], vec![Harvest]]));
+    v.push(hg("partial-last-page-range-into-it-vs-harvest-twice", 3, 4, 3, vec![], vec![vec![SetRange(6, 3)], vec![Harvest, Harvest]]));
+    v.push(hg("partial-last-page-premarked-harvest-vs-reset", 66, 5, 1, vec![65, 64], vec![vec![Harvest], vec![ResetRange(64 * 5, 5), SetBit(65)]]));
+    v.push(hg("partial-single-page-mark-vs-harvest-vs-clone", 1, 4096, 4000, vec![], vec![vec![SetRange(10, 50)], vec![Harvest], vec![Clone]]));
+    v.push(hg("whole-pages-wide-mark-vs-harvest", 65, 7, 0, vec![], vec![vec![SetRange(63 * 7 + 6, 2), SetBit(0)], vec![Harvest]]));
     if tier.thorough() {
         v.push(h(
             "3x2-ops-mark-harvest",
